@@ -79,7 +79,8 @@ def generic_event(pp, tid, rnd):
     elif r < 0.5:
         v = rand_glycan(rnd)
     elif r < 0.65:
-        v = rnd.choice(["U:", "M:", "X:", "UNIMOD:", "MOD:", "XLMOD:", "Obs:", "obs:"]) + rnd.choice(["+", "-"]) + \
+        v = rnd.choice(["U:", "M:", "X:", "UNIMOD:", "MOD:", "XLMOD:", "Obs:", "obs:", "PSI-MOD:", "psi-mod:", "Unimod:", "R:",
+                        "RESID:", "G:", "GNO:", "xlmod:", "m:"]) + rnd.choice(["+", "-"]) + \
             rnd.choice(["15.995", "1", "0.984016", "100.25", "79.966331"])
     else:
         v = rnd.choice(anngen.MASSY)
@@ -101,7 +102,16 @@ def generic_event(pp, tid, rnd):
             call(lambda: pp.mod_mass(junk, rnd.random() < 0.5))
             call(lambda: pp.mod_comp(junk))
     o, m = call(lambda: pp.mod_mass(Mod(v, mult), mono))
-    return {"tid": tid, "k": "generic", "v": "s:" + v, "mult": mult, "mono": mono, "out": o, "res": fix(m) if o == "ret" else [0, 0]}
+    ev = {"tid": tid, "k": "generic", "v": "s:" + v, "mult": mult, "mono": mono, "out": o, "res": fix(m) if o == "ret" else [0, 0],
+          "routeOut": "skipped", "route": [0, 0]}
+    if o == "ret" and mono and rnd.random() < 0.5:
+        # the same value on a peptide with a global label: mass() then goes through the composition calculator
+        def route():
+            a = pp.ProFormaAnnotation(_sequence="G", _isotope_mods=[Mod("15N", 1)], _internal_mods={0: [Mod(v, mult)]})
+            return pp.mass(a, charge=0) - pp.mass("<15N>G", charge=0)
+        o2, d = call(route)
+        ev["routeOut"], ev["route"] = o2, fix(d) if o2 == "ret" else [0, 0]
+    return ev
 
 
 def run(tier, seed, rep):
